@@ -244,3 +244,13 @@ pub fn query(address: &SocketAddr, timeout_settings: Option<TimeoutSettings>) ->
         unused_entries: server_vars,
     })
 }
+
+/// Verification unit ports (compiled only with `--cfg gamedig_verif`).
+#[cfg(gamedig_verif)]
+pub mod verif_unit {
+    use super::*;
+
+    pub fn extract_players(server_vars: &mut HashMap<String, String>, players_maximum: u32) -> GDResult<Vec<Player>> {
+        super::extract_players(server_vars, players_maximum)
+    }
+}
